@@ -46,3 +46,22 @@ type G3[T any] struct{ V T }
 func (e *G1[T]) Error() string { return "generic" }
 func (e *G2[T]) Error() string { return "generic" }
 func (e *G3[T]) Error() string { return "generic" }
+
+// a multi-cause type and its two later names
+type M1 struct{ Errs []error }
+type M2 struct{ Errs []error }
+type M3 struct{ Errs []error }
+
+func multiText(es []error) string {
+	s := "multi"
+	for _, e := range es {
+		s += "; " + e.Error()
+	}
+	return s
+}
+func (e *M1) Error() string   { return multiText(e.Errs) }
+func (e *M2) Error() string   { return multiText(e.Errs) }
+func (e *M3) Error() string   { return multiText(e.Errs) }
+func (e *M1) Unwrap() []error { return e.Errs }
+func (e *M2) Unwrap() []error { return e.Errs }
+func (e *M3) Unwrap() []error { return e.Errs }
